@@ -62,8 +62,11 @@ func (u *Universe) MAC(name string) net.HardwareAddr {
 		return RouterMAC
 	case strings.HasPrefix(name, "m"):
 		k, err := strconv.Atoi(name[1:])
-		if err == nil && k > 0 && k < 250 {
+		if err == nil && k > 0 && k <= 100 {
 			return net.HardwareAddr{0x02, 0x00, 0x00, 0x00, 0x01, byte(k)}
+		}
+		if err == nil && k > 100 && k <= 200 { // m<100+K>: same low four bytes as m<K>, other vendor prefix
+			return net.HardwareAddr{0x06, 0x11, 0x00, 0x00, 0x01, byte(k - 100)}
 		}
 	}
 	panic("unknown mac name " + name)
@@ -78,8 +81,11 @@ func (u *Universe) MACName(mac net.HardwareAddr) string {
 		if string(mac) == string(RouterMAC) {
 			return "router"
 		}
-		if mac[0] == 2 && mac[1] == 0 && mac[2] == 0 && mac[3] == 0 && mac[4] == 1 && mac[5] > 0 && mac[5] < 250 {
+		if mac[0] == 2 && mac[1] == 0 && mac[2] == 0 && mac[3] == 0 && mac[4] == 1 && mac[5] > 0 && mac[5] <= 100 {
 			return "m" + strconv.Itoa(int(mac[5]))
+		}
+		if mac[0] == 6 && mac[1] == 0x11 && mac[2] == 0 && mac[3] == 0 && mac[4] == 1 && mac[5] > 0 && mac[5] <= 100 {
+			return "m" + strconv.Itoa(100+int(mac[5]))
 		}
 	}
 	return "mac:" + mac.String()
